@@ -201,13 +201,20 @@ def run(ctx):
     av = rec["available"]
     probs = []
     inner = None
-    if av[0] == "gphi" and av[1][0] == "cmp" and av[1][1] == "<" and av[1][3] == ("const", 0) \
-            and av[2] == ("const", 0):
+    def lt(c):
+        """(a, b) when the condition term means a < b, else None."""
+        if c and c[0] == "cmp" and c[1] == "<":
+            return c[2], c[3]
+        if c and c[0] == "cmp" and c[1] == ">":
+            return c[3], c[2]
+        return None
+    c0 = lt(av[1]) if av[0] == "gphi" else None
+    if c0 and c0[1] == ("const", 0) and av[2] == ("const", 0):
         rest = av[3]
-        if rest[0] == "gphi" and rest[1][0] == "cmp" and rest[1][1] == ">" \
-                and rest[1][2] == av[1][2] and rest[1][3] == rec["total"] \
-                and rest[2] == rec["free"] and rest[3] == av[1][2]:
-            inner = av[1][2]
+        c1 = lt(rest[1]) if rest[0] == "gphi" else None
+        if c1 and c1[0] == rec["total"] and c1[1] == c0[0] \
+                and rest[2] == rec["free"] and rest[3] == c0[0]:
+            inner = c0[0]
         else:
             probs.append("the `> total -> free` clamp is missing or applied to another value")
     else:
